@@ -59,6 +59,9 @@ func loadAll() (*Program, *ContractDB, error) {
 }
 
 // verifyFuncs generates and discharges the obligations of the named functions.
+// onlyNames (optional): obligations with other names are generated but not sent to the solvers ("skipped").
+var onlyNames map[string]bool
+
 func verifyFuncs(P *Program, db *ContractDB, names []string, lemmas []string, workDir string, timeoutS, seed int) *runResult {
 	g := NewGen(P, db)
 	rr := &runResult{aggs: map[string]*aggObl{}, g: g}
@@ -67,16 +70,20 @@ func verifyFuncs(P *Program, db *ContractDB, names []string, lemmas []string, wo
 	for _, n := range names {
 		con := db.Funcs[n]
 		fn := P.Funcs[n]
-		if fn == nil {
-			rr.errs = append(rr.errs, "contract for unknown function "+n)
-			continue
-		}
 		if con.Trusted {
 			trusted[n] = true
 			continue
 		}
+		if fn == nil {
+			rr.errs = append(rr.errs, "contract for unknown function "+n)
+			continue
+		}
 		rr.funcs = append(rr.funcs, n)
+		tg := time.Now()
 		vc := VerifyFunc(g, fn, con, 4000)
+		if os.Getenv("GOVC_TIMING") != "" {
+			fmt.Fprintf(os.Stderr, "gen %-50s %6.1fs paths=%d feas=%d pruned=%d obls=%d\n", n, time.Since(tg).Seconds(), vc.paths, vc.nFeas, vc.pruned, len(vc.obls))
+		}
 		rr.errs = append(rr.errs, vc.errs...)
 		rr.paths += vc.paths
 		if vc.truncated {
@@ -108,7 +115,19 @@ func verifyFuncs(P *Program, db *ContractDB, names []string, lemmas []string, wo
 		all = append(all, o)
 	}
 	t0 := time.Now()
-	Discharge(g, all, workDir, timeoutS, seed, 16, false)
+	if onlyNames != nil {
+		var sel []*Obligation
+		for _, o := range all {
+			if onlyNames[o.Name] {
+				sel = append(sel, o)
+			} else {
+				o.Result = "skipped"
+			}
+		}
+		Discharge(g, sel, workDir, timeoutS, seed, 16, false)
+	} else {
+		Discharge(g, all, workDir, timeoutS, seed, 16, false)
+	}
 	rr.solverMs = time.Since(t0).Milliseconds()
 	rr.allObls = all
 	for _, o := range all {
@@ -133,6 +152,10 @@ func verifyFuncs(P *Program, db *ContractDB, names []string, lemmas []string, wo
 			continue
 		}
 		switch o.Result {
+		case "skipped":
+			if a.Result == "discharged" && a.Instances == 1+a.Trivial {
+				a.Result = "skipped"
+			}
 		case "unsat":
 			if a.Backend == "" || a.Backend == "syntactic" {
 				a.Backend = o.Solver
